@@ -14,8 +14,8 @@ Open Scope Z_scope.
 (* what one round trip of the base transport yields *)
 Inductive outcome :=
 | OStatus (code : Z) (retry_after : str) (chal : N)  (* chal: 0 none, 1 Basic, 2 Bearer, 3 unknown scheme *)
-| OTimeout                                           (* net.Error with Timeout() = true *)
-| OOtherErr                                          (* any other transport error *)
+| OErr (is_net timeout temporary : bool)             (* a transport error: does the error value implement
+                                                        net.Error, and what do Timeout()/Temporary() report *)
 | OCanceled                                          (* context.Canceled from the base transport *)
 | ODeadline.                                         (* context.DeadlineExceeded (a net.Error with Timeout() = true) *)
 
@@ -27,12 +27,37 @@ Record beh := mkBeh {
 
 Inductive pred_result := PRetry | PStop | PFail.
 
-(* DefaultPredicate; the status-code branch is Generated.GC17.default_predicate_status *)
+(* how the transport errors look to a predicate *)
+Definition err_flags (o : outcome) : option (bool * bool * bool) :=
+  match o with
+  | OStatus _ _ _ => None
+  | OErr ne to tmp => Some (ne, to, tmp)
+  | OCanceled => Some (false, false, false)     (* context.Canceled: a plain error *)
+  | ODeadline => Some (true, true, true)        (* context.DeadlineExceeded: Timeout() and Temporary() *)
+  end.
+
+(* DefaultPredicate; both branches are generated: Generated.GC17.default_predicate_status
+   and Generated.GC17.default_predicate_error *)
 Definition default_predicate (o : outcome) : pred_result :=
   match o with
   | OStatus c _ _ => if default_predicate_status c then PRetry else PStop
-  | OTimeout | ODeadline => PRetry
-  | OOtherErr | OCanceled => PFail
+  | _ => match err_flags o with
+         | Some (ne, to, tmp) => if default_predicate_error ne to tmp then PRetry else PFail
+         | None => PFail
+         end
+  end.
+
+(* the custom predicates of the harness: a table on status codes, one rule for the other
+   statuses, one rule for transport errors *)
+Fixpoint lookup_status (tbl : list (Z * pred_result)) (c : Z) : option pred_result :=
+  match tbl with
+  | [] => None
+  | (k, r) :: tbl' => if k =? c then Some r else lookup_status tbl' c
+  end.
+Definition custom_predicate (tbl : list (Z * pred_result)) (dflt err : pred_result) (o : outcome) : pred_result :=
+  match o with
+  | OStatus c _ _ => match lookup_status tbl c with Some r => r | None => dflt end
+  | _ => err
   end.
 
 Inductive bres := BRet (d : Z) | BPanic.
@@ -189,7 +214,8 @@ Inductive event :=
 
 Inductive result :=
 | RResp (code : Z) (chal : N)
-| RErrTimeout | RErrOther
+| RErr (is_net timeout temporary : bool)   (* the transport's error *)
+| RPredErr                (* the error a predicate returned for a response *)
 | RCtx                    (* the context's error *)
 | RPanic                  (* the policy panicked *)
 | RNotRewindable | RGetBodyFailed   (* auth.rewindRequestBody errors *)
@@ -198,10 +224,14 @@ Inductive result :=
 Definition result_of_outcome (o : outcome) : result :=
   match o with
   | OStatus c _ ch => RResp c ch
-  | OTimeout => RErrTimeout
-  | OOtherErr => RErrOther
+  | OErr ne to tmp => RErr ne to tmp
   | OCanceled | ODeadline => RCtx
   end.
+
+(* what RoundTrip returns when the predicate returned an error: the predicates considered
+   hand back the transport's error, or an error of their own for a response *)
+Definition fail_result (o : outcome) : result :=
+  match o with OStatus _ _ _ => RPredErr | _ => result_of_outcome o end.
 
 (* cancellation: the context ends at time tc (is_deadline: DeadlineExceeded instead of Canceled) *)
 Definition cancel := option (Z * bool).
@@ -248,7 +278,7 @@ Definition rt_step (p : policy) (cn : cancel) (bd : body)
   let stop := Done (mkOut (result_of_outcome o) st1 sc' t1 tr1) in
   match generic_retry p attempt o with
   | DPanic => Done (mkOut RPanic st1 sc' t1 tr1)
-  | DFail => stop            (* return nil, err *)
+  | DFail => Done (mkOut (fail_result o) st1 sc' t1 tr1)   (* return nil, err *)
   | DStop => stop            (* return resp, respErr *)
   | DWait d =>
     if d <? 0 then stop
@@ -418,5 +448,5 @@ Definition accept_decision (guarded : bool) (maxretry minw maxw : Z) (e : eparam
 Definition table_backoff (tbl : list Z) (dflt : Z) (attempt : Z) (o : outcome) : bres :=
   BRet (nth (Z.to_nat attempt) tbl dflt).
 
-Definition table_policy (maxretry minw maxw : Z) (tbl : list Z) (dflt : Z) : policy :=
-  mkPolicy maxretry minw maxw default_predicate (table_backoff tbl dflt).
+Definition table_policy (pred : outcome -> pred_result) (maxretry minw maxw : Z) (tbl : list Z) (dflt : Z) : policy :=
+  mkPolicy maxretry minw maxw pred (table_backoff tbl dflt).
